@@ -176,6 +176,9 @@ pub struct WorldB {
     pub hs_stats: [u32; 4],
     /// replay window of half-open entries: (token, accepted sequences, highest), carried into the session on connect
     pub pend_model: HashMap<SocketAddr, (usize, BTreeSet<u64>, Option<u64>)>,
+    /// violations noticed where no observer is at hand (token issue); flushed by the next apply_op
+    pub deferred: Vec<(String, String, String, String)>,
+    pub token_roundtrips: u64,
 }
 
 pub fn make_world(cfg: &Cfg) -> Box<dyn World> {
@@ -274,6 +277,8 @@ impl WorldB {
             challenges_seen: Vec::new(),
             hs_stats: [0; 4],
             pend_model: HashMap::new(),
+            deferred: Vec::new(),
+            token_roundtrips: 0,
         }
     }
 
@@ -312,12 +317,46 @@ impl WorldB {
         }
         let mut k = 0;
         while addrs.len() < naddr.min(32) {
-            addrs.push(SocketAddr::new(IpAddr::V6(Ipv6Addr::new(0xfd00, 0, 0, 0, 0, 0, 9, k as u16)), 5900 + k as u16));
+            // padding with further (foreign) hosts, including the odd corners of the address space
+            let a = match k % 6 {
+                0 => SocketAddr::new(IpAddr::V6(Ipv6Addr::new(0xfd00, 0, 0, 0, 0, 0, 9, k as u16)), 5900 + k as u16),
+                1 => SocketAddr::new(IpAddr::V6(Ipv4Addr::new(10, 20, 30, k as u8).to_ipv6_mapped()), 5900 + k as u16),
+                2 => SocketAddr::new(IpAddr::V4(Ipv4Addr::new(255, 255, 255, 255)), 65535),
+                3 => SocketAddr::new(IpAddr::V6(Ipv6Addr::UNSPECIFIED), 0),
+                4 => SocketAddr::new(IpAddr::V4(Ipv4Addr::new(0, 0, 0, k as u8)), 1),
+                _ => SocketAddr::new(IpAddr::V6(Ipv6Addr::new(0, 0, 0, 0, 0, 0, 0, 1)), 5900 + k as u16),
+            };
+            addrs.push(a);
             k += 1;
         }
         addrs.truncate(32);
         let now = Duration::from_millis(self.sv_ms);
-        let token = ConnectToken::generate(now, protocol, expire_secs, id, timeout, addrs, Some(&user_data), &key).expect("token generation");
+        let token = ConnectToken::generate(now, protocol, expire_secs, id, timeout, addrs.clone(), Some(&user_data), &key).expect("token generation");
+        // C16 monitor on every token the run produces: public write/read and private seal/open give back what went in
+        self.token_roundtrips += 1;
+        let mut bytes = Vec::new();
+        if token.write(&mut bytes).is_err() {
+            self.deferred.push(("C16".into(), "token-write-fails".into(), "write".into(), format!("id {}", id)));
+        } else {
+            match ConnectToken::read(&mut std::io::Cursor::new(&bytes)) {
+                Ok(t2) if t2 == token => {}
+                Ok(_) => self.deferred.push(("C16".into(), "token-write-read-differs".into(), "roundtrip".into(), format!("id {} addresses {:?}", id, addrs))),
+                Err(e) => self.deferred.push(("C16".into(), "genuine-token-unreadable".into(), "read".into(), format!("{}", e))),
+            }
+        }
+        let listed: Vec<SocketAddr> = token.server_addresses.iter().flatten().copied().collect();
+        if listed != addrs {
+            self.deferred.push(("C16".into(), "token-addresses-differ-from-input".into(), "generate".into(), format!("{:?} vs {:?}", listed, addrs)));
+        }
+        match renetcode::verif::private_token_decode(&token.private_data, protocol, token.expire_timestamp, &token.xnonce, &key) {
+            Some(pt) => {
+                let sealed: Vec<SocketAddr> = pt.server_addresses.iter().flatten().copied().collect();
+                if sealed != addrs || pt.client_id != id || pt.user_data != user_data || pt.client_to_server_key != token.client_to_server_key || pt.server_to_client_key != token.server_to_client_key || pt.timeout_seconds != timeout {
+                    self.deferred.push(("C16".into(), "private-token-seal-open-differs".into(), "roundtrip".into(), format!("id {} addresses {:?} vs {:?}", id, sealed, addrs)));
+                }
+            }
+            None => self.deferred.push(("C16".into(), "private-token-does-not-open".into(), "decode".into(), format!("id {}", id))),
+        }
         let rec = TokenRec {
             id,
             user_data,
@@ -409,9 +448,9 @@ pub fn gen_cfg(family: &str, rng: &mut Rng) -> Cfg {
     cfg.set("secure", if family == "handshake" || rng.chance(5, 6) { 1 } else { 0 });
     cfg.set("proto", rng.below(4));
     cfg.set("npub", *rng.pick(&[1u64, 1, 2, 3]));
-    let nslots = rng.range(1, 4);
+    let nslots = if family == "handshake" && rng.chance(1, 3) { rng.range(4, 6) } else { rng.range(1, 4) };
     cfg.set("nslots", nslots);
-    cfg.set("nids", rng.range(1, 4));
+    cfg.set("nids", if nslots > 4 { 6 } else { rng.range(1, 4) });
     cfg.set("maxcl", rng.range(1, 4));
     cfg.set("timeout", *rng.pick(&[1u64, 2, 5, 5, 15, 0xFFFF_FFFF])); // last = -1 (disabled)
     cfg.set("expire", *rng.pick(&[1u64, 2, 5, 30, 30, 300]));
